@@ -68,6 +68,10 @@ func zOpt(raw string) string {
 	return "(Some " + emit.Z(b) + ")"
 }
 
+// chain reference ids a fee entry can be registered under (UpsertRelayerFee accepts unknown chains): index 0 and 1
+// are the two real chains, the others near-miss spellings — for the treasury, and for the model, OTHER chains
+var chainSpellings = []string{"eth-main", "bnb-main", "ETH-MAIN", "eth-main ", " Eth-Main", "BNB-MAIN", "bnb-main\t", "Eth-main"}
+
 var hostileMults = []string{
 	"nil", "0", "-1", "-1000000000000000000", "-500000000000000000", "1", "999999999999999999",
 	"1100000000000000000", "1250000000000000000", "2500000000000000000", "1000000000000000000",
@@ -243,7 +247,7 @@ func (r *runner) do(h hop) {
 		for _, f := range h.Fees {
 			var ci int
 			fmt.Sscan(f[0], &ci)
-			fs.Fees = append(fs.Fees, treasurytypes.RelayerFeeSetting_FeeSetting{ChainReferenceId: chains[ci], Multiplicator: decOf(f[1])})
+			fs.Fees = append(fs.Fees, treasurytypes.RelayerFeeSetting_FeeSetting{ChainReferenceId: chainSpellings[ci], Multiplicator: decOf(f[1])})
 			items = append(items, emit.Pair(emit.ZI(int64(ci)), zOpt(f[1])))
 		}
 		out, _ := guard(func() error {
@@ -502,7 +506,11 @@ func genHistory(run *emit.Run, nv int, hostile bool) []hop {
 					if hostile && r.Intn(3) == 0 {
 						m = pick(hostileMults)
 					}
-					ops = append(ops, hop{Kind: "upsert", V: v, Fees: [][2]string{{"0", m}}})
+					ci := "0"
+					if hostile && r.Intn(5) == 0 {
+						ci = fmt.Sprint(2 + r.Intn(len(chainSpellings)-2)) // this validator only knows the chain by a near-miss spelling
+					}
+					ops = append(ops, hop{Kind: "upsert", V: v, Fees: [][2]string{{ci, m}}})
 				}
 			}
 		}
@@ -518,7 +526,11 @@ func genHistory(run *emit.Run, nv int, hostile bool) []hop {
 				if hostile && r.Intn(2) == 0 {
 					m = pick(hostileMults)
 				}
-				fs = append(fs, [2]string{fmt.Sprint(r.Intn(2)), m})
+				ci := r.Intn(2)
+				if hostile && r.Intn(4) == 0 {
+					ci = r.Intn(len(chainSpellings)) // a near-miss spelling of a chain id
+				}
+				fs = append(fs, [2]string{fmt.Sprint(ci), m})
 			}
 			if r.Intn(12) == 0 {
 				fs = nil
@@ -618,13 +630,14 @@ func TestCorr(t *testing.T) {
 			newARunner(t, run, c.Powers).history(c.Ops)
 		case "usc-receipt":
 			var c struct {
-				Logs  string `json:"logs"`
-				NVals int    `json:"nvals"`
+				Logs  string   `json:"logs"`
+				NVals int      `json:"nvals"`
+				Sigs  []string `json:"sigs"`
 			}
 			if err := json.Unmarshal(bz, &c); err != nil {
 				t.Fatalf("%s: %v", p, err)
 			}
-			uscScenario(t, run, c.Logs, c.NVals)
+			uscScenario(t, run, c.Logs, c.NVals, c.Sigs...)
 		case "evm-gov-history":
 			var c struct {
 				History govHist `json:"history"`
@@ -742,7 +755,12 @@ func TestCorr(t *testing.T) {
 
 	// ---- a user contract upload attested with a MATCHING transaction and receipt logs of every shape ----
 	for i, sh := range uscLogShapes {
-		uscScenario(t, run, sh, 3+(i+int(run.Seed))%3)
+		nv := 3 + (i+int(run.Seed))%3
+		var encs []string
+		for k := 1; k < nv; k++ {
+			encs = append(encs, sigEncodings[run.Rng.Intn(len(sigEncodings))])
+		}
+		uscScenario(t, run, sh, nv, encs...)
 		run.Count("source", "usc-receipt")
 	}
 
